@@ -1434,6 +1434,32 @@ class ArrowStringConversion(Elemwise):
     _parameters = ["frame"]
     operation = staticmethod(to_pyarrow_string)
 
+    def _filter_passthrough_available(self, parent, dependents):
+        if not super()._filter_passthrough_available(parent, dependents):
+            return False
+        # Below the conversion the predicate sees the unconverted strings, whose
+        # missing values compare differently (None != "a" is True, <NA> != "a" is
+        # missing): it may only read what the conversion leaves alone
+
+        def dtypes(obj):
+            return list((obj.to_frame() if obj.ndim == 1 else obj).dtypes)
+
+        for e in parent.predicate.walk():
+            if not any(dep._name == self._name for dep in e.dependencies()):
+                continue
+            old, new = self.frame._meta, self._meta
+            if isinstance(e, Projection) and old.ndim == 2:
+                old, new = old[e.columns], new[e.columns]
+            elif isinstance(e, Index):
+                old, new = old.index, new.index
+            elif not isinstance(old, pd.Index) and (
+                dtypes(old.index) != dtypes(new.index)
+            ):
+                return False
+            if dtypes(old) != dtypes(new):
+                return False
+        return True
+
 
 class Between(Elemwise):
     _parameters = ["frame", "left", "right", "inclusive"]
